@@ -39,6 +39,14 @@ def make_cases(tier, rng):
                 n += 1
                 cases.append(("k%d" % n, "(case k%d group_by %s %s (calls %s) (take %d))" % (n, "local-cold" if n % 2 else "threads-cold", key, evs, tk),
                               {"form": "cold", "key": key + "/take", "len": len(s)}))
+    # a consumer that subscribes to some groups only: the group of one key is announced and left alone (create() source)
+    for s in gen.scripts(4 if tier == "quick" else 6, items=[0, 1, 2, 3]):
+        evs = " ".join(gen.ev(e) for e in s)
+        for key, ks in (("id", (0, 1)), ("(mod 2)", (0, 1)), ("(mod 3)", (0, 2))):
+            for k in ks:
+                n += 1
+                cases.append(("k%d" % n, "(case k%d group_by %s %s (calls %s) (ignore %d))" % (n, "local-cold" if n % 2 else "threads-cold", key, evs, k),
+                              {"form": "cold", "key": key + "/ignore", "len": len(s)}))
     return cases
 
 
@@ -61,6 +69,7 @@ def run(tier, seed, replay=None):
                  "{Subject, SubjectThreads} groups x {hot Subject source, cold create source}; a recording subscriber is attached to every "
                  "group inside the announcing callback; plus scripts with calls after the terminal; the implementation's trace is judged by the "
                  "five projection predicates (extracted) and compared in full with the model's (group terminals within one fan-out sorted by "
-                 "announcement order)" % (5 if tier == "quick" else 7))
+                 "announcement order); plus a key function with a state of its own, take(N) on the stream of groups, and a consumer that leaves the "
+                 "group of one key without a subscriber (it is announced once and nobody hears its items)" % (5 if tier == "quick" else 7))
     rep.assumptions = ["the order in which the groups receive the terminal (HashMap iteration order) is canonicalised, not specified"]
     return rep.finish()
